@@ -24,7 +24,7 @@ CONSTANTS Unit,        \* denominator of fixed weights
           Svc,         \* service names
           TagSets,     \* tag sets a target can carry
           SelTags,     \* tag sets a `route weight` command can select on ({} = none)
-          Ops,         \* kinds of commands a history may contain after the first adds: subset of {"weight", "add", "del"}
+          Ops,         \* kinds of commands a history may contain after the first adds: subset of {"weight", "add", "del", "readd"}
           MaxInit,     \* targets added before the first other command
           MaxTargets, MaxCmds,
           MaxSlots     \* ring resolution (10 000 in fabio; small in the ring model)
@@ -87,7 +87,8 @@ ShareOK(c, u, w) == \/ Q(c, u) = w
 -----------------------------------------------------------------------------
 \* Part 2 and 3: state
 VARIABLES tg0,     \* the targets as added (`route add ... weight k`); never changes
-          tg,      \* the targets of the route: sequence of [svc, tags, k]  (k = fixed weight, units)
+          tg,      \* the targets of the route: sequence of [svc, tags, k, id]  (k = fixed weight, units; id = its URL)
+          tgL,     \* the same route under the "last announced weight wins" reading of a re-announcement (DoReAdd)
           cmds,    \* `route weight` commands applied so far (history, for the generator)
           pc,      \* "cfg" | "target" | "probe" | "place" | "rr" | "done"
           cnt,     \* slots per target
@@ -95,7 +96,7 @@ VARIABLES tg0,     \* the targets as added (`route add ... weight k`); never cha
           ring,    \* sequence of target indices, 0 = empty
           oi, k, next, step,   \* locals of the filling loop
           cursor, picks, npicks
-vars == <<tg0, tg, cmds, pc, cnt, order, ring, oi, k, next, step, cursor, picks, npicks>>
+vars == <<tg0, tg, tgL, cmds, pc, cnt, order, ring, oi, k, next, step, cursor, picks, npicks>>
 ringvars == <<cnt, order, ring, oi, k, next, step, cursor, picks, npicks>>
 
 Vec(t) == [i \in 1..Len(t) |-> t[i].k]
@@ -122,27 +123,51 @@ Without(t, m, i) == IF i > Len(t) THEN <<>> ELSE (IF i \in m THEN <<>> ELSE <<t[
 Del(t, s, sel) == Without(t, Selected(t, s, sel), 1)
 DelCmds == {c \in [svc : Svc \cup {""}, sel : SelTags] : c.svc # "" \/ c.sel # {}}
 
+\* an instance is a service at a URL with its tags; id stands for the URL: the i-th `route add`
+\* line of a script names URL i (NextId), only a re-announcement (DoReAdd) names a URL again
 Targets == [svc : Svc, tags : TagSets, k : WU]
-InitTargets == UNION {[1..n -> Targets] : n \in 1..MaxInit}
+WithId(t, i) == [svc |-> t.svc, tags |-> t.tags, k |-> t.k, id |-> i]
+InitTargets == UNION {{[i \in 1..n |-> WithId(f[i], i)] : f \in [1..n -> Targets]} : n \in 1..MaxInit}
+NextId == Len(tg0) + Cardinality({j \in 1..Len(cmds) : cmds[j].op = "add"}) + 1
+SameInstance(a, b) == a.svc = b.svc /\ a.id = b.id /\ a.tags = b.tags
 ASSUME MaxInit <= MaxTargets
 
 ResetRing == /\ cnt = <<>> /\ order = <<>> /\ ring = <<>> /\ oi = 0 /\ k = 0 /\ next = 0 /\ step = 0
              /\ cursor = 0 /\ picks = <<>> /\ npicks = 0
-Init == tg \in InitTargets /\ tg0 = tg /\ cmds = <<>> /\ pc = "cfg" /\ ResetRing
+Init == tg \in InitTargets /\ tg0 = tg /\ tgL = tg /\ cmds = <<>> /\ pc = "cfg" /\ ResetRing
 
-\* a command of the history, as logged: [op, svc, sel (tags of an added target), w (its fixed weight)]
+\* a command of the history, as logged: [op, svc, sel (tags of an added target), w (its fixed weight),
+\* id (URL of an added / re-announced target, 0 otherwise)]
 DoWeigh(c) == /\ "weight" \in Ops /\ pc = "cfg" /\ Len(cmds) < MaxCmds
-              /\ tg' = Weigh(tg, c.svc, c.sel, c.w)
-              /\ cmds' = Append(cmds, [op |-> "weight", svc |-> c.svc, sel |-> c.sel, w |-> c.w])
+              /\ tg' = Weigh(tg, c.svc, c.sel, c.w) /\ tgL' = Weigh(tgL, c.svc, c.sel, c.w)
+              /\ cmds' = Append(cmds, [op |-> "weight", svc |-> c.svc, sel |-> c.sel, w |-> c.w, id |-> 0])
               /\ UNCHANGED <<tg0, pc, ringvars>>
 DoAdd(t) == /\ "add" \in Ops /\ pc = "cfg" /\ Len(cmds) < MaxCmds /\ Len(tg) < MaxTargets
-            /\ tg' = Append(tg, t)
-            /\ cmds' = Append(cmds, [op |-> "add", svc |-> t.svc, sel |-> t.tags, w |-> t.k])
+            /\ tg' = Append(tg, WithId(t, NextId)) /\ tgL' = Append(tgL, WithId(t, NextId))
+            /\ cmds' = Append(cmds, [op |-> "add", svc |-> t.svc, sel |-> t.tags, w |-> t.k, id |-> NextId])
             /\ UNCHANGED <<tg0, pc, ringvars>>
 DoDel(c) == /\ "del" \in Ops /\ pc = "cfg" /\ Len(cmds) < MaxCmds
-            /\ tg' = Del(tg, c.svc, c.sel)
-            /\ cmds' = Append(cmds, [op |-> "del", svc |-> c.svc, sel |-> c.sel, w |-> 0])
+            /\ tg' = Del(tg, c.svc, c.sel) /\ tgL' = Del(tgL, c.svc, c.sel)
+            /\ cmds' = Append(cmds, [op |-> "del", svc |-> c.svc, sel |-> c.sel, w |-> 0, id |-> 0])
             /\ UNCHANGED <<tg0, pc, ringvars>>
+\* route add for an instance the route already has (same service, URL, tags), with the fixed
+\* weight w: the instance is announced AGAIN (registry entry plus manual override, a service
+\* that changes its weight, dynamic -> fixed, fixed -> dynamic).  With the weight it already
+\* has, nothing changes (add is idempotent).  With another weight the route language counts the
+\* fixed weight as part of a target's identity (RouteLang!SameTarget): a further entry joins
+\* the route (tg).  The property C04 does not choose between that and "the last announced
+\* weight replaces the old one" (tgL; which of the two the route does is C05's business) - it
+\* demands that, whichever targets the route has afterwards, the split is the one THEIR fixed
+\* weights prescribe: Eff(Vec(tg), i) resp. Eff(Vec(tgL), i).  A re-announcement is never
+\* allowed to leave the split of the earlier weights behind.
+ReAnnounce(t, i, w) == LET x == [t[i] EXCEPT !.k = w] IN
+                       IF \E j \in 1..Len(t) : t[j] = x THEN t ELSE Append(t, x)
+LastWins(t, x, w) == [j \in 1..Len(t) |-> IF SameInstance(t[j], x) THEN [t[j] EXCEPT !.k = w] ELSE t[j]]
+DoReAdd(i, w) == /\ "readd" \in Ops /\ pc = "cfg" /\ Len(cmds) < MaxCmds /\ Len(tg) < MaxTargets
+                 /\ i \in 1..Len(tg)
+                 /\ tg' = ReAnnounce(tg, i, w) /\ tgL' = LastWins(tgL, tg[i], w)
+                 /\ cmds' = Append(cmds, [op |-> "readd", svc |-> tg[i].svc, sel |-> tg[i].tags, w |-> w, id |-> tg[i].id])
+                 /\ UNCHANGED <<tg0, pc, ringvars>>
 
 -----------------------------------------------------------------------------
 \* Part 3.  Slot counts on a ring of MaxSlots: floor(MaxSlots * w), at least 1 for w > 0.
@@ -173,7 +198,7 @@ Build ==
             /\ ring' = [i \in 1..SumSeq(cnt', Len(v)) |-> 0]
             /\ oi' = 1 /\ pc' = "target"
             /\ UNCHANGED <<k, next, step, cursor>>
-    /\ UNCHANGED <<tg0, tg, cmds, picks, npicks>>
+    /\ UNCHANGED <<tg0, tg, tgL, cmds, picks, npicks>>
 
 \* for _, s := range slots { if s.n <= 0 { continue }; next, step := 0, usedSlots/s.n; ...
 Target ==
@@ -184,7 +209,7 @@ Target ==
             THEN /\ oi' = oi + 1 /\ UNCHANGED <<pc, k, next, step, cursor>>
             ELSE /\ next' = 0 /\ step' = Used \div cnt[order[oi]] /\ k' = 0 /\ pc' = "probe"
                  /\ UNCHANGED <<oi, cursor>>
-    /\ UNCHANGED <<tg0, tg, cmds, cnt, order, ring, picks, npicks>>
+    /\ UNCHANGED <<tg0, tg, tgL, cmds, cnt, order, ring, picks, npicks>>
 \* for k := 0; k < s.n; k++ { for targets[next] != nil { next = (next + 1) % usedSlots } ...
 Probe ==
     /\ pc = "probe"
@@ -193,7 +218,7 @@ Probe ==
        ELSE IF ring[next + 1] # 0
             THEN /\ next' = (next + 1) % Used /\ UNCHANGED <<oi, pc>>
             ELSE /\ pc' = "place" /\ UNCHANGED <<oi, next>>
-    /\ UNCHANGED <<tg0, tg, cmds, cnt, order, ring, k, step, cursor, picks, npicks>>
+    /\ UNCHANGED <<tg0, tg, tgL, cmds, cnt, order, ring, k, step, cursor, picks, npicks>>
 \* targets[next] = r.Targets[s.i]; next = (next + step) % usedSlots }
 Place ==
     /\ pc = "place"
@@ -201,7 +226,7 @@ Place ==
     /\ next' = (next + step) % Used
     /\ k' = k + 1
     /\ pc' = "probe"
-    /\ UNCHANGED <<tg0, tg, cmds, cnt, order, oi, step, cursor, picks, npicks>>
+    /\ UNCHANGED <<tg0, tg, tgL, cmds, cnt, order, oi, step, cursor, picks, npicks>>
 
 \* round robin: the pick is the slot under the cursor, the cursor advances by one.  One full
 \* cycle (Used picks) is observed from an arbitrary cursor position.
@@ -213,13 +238,14 @@ Pick ==
             /\ cursor' = cursor + 1
             /\ npicks' = npicks + 1
             /\ UNCHANGED pc
-    /\ UNCHANGED <<tg0, tg, cmds, cnt, order, ring, oi, k, next, step>>
+    /\ UNCHANGED <<tg0, tg, tgL, cmds, cnt, order, ring, oi, k, next, step>>
 Done == pc = "done" /\ UNCHANGED vars
 
 Next == (\E c \in WeighCmds : DoWeigh(c)) \/ Build \/ Target \/ Probe \/ Place \/ Pick \/ Done
 Spec == Init /\ [][Next]_vars /\ WF_vars(Next)
 \* the configuration part alone (route add / route weight, no ring)
-CfgNext == (\E c \in WeighCmds : DoWeigh(c)) \/ (\E t \in Targets : DoAdd(t)) \/ (\E c \in DelCmds : DoDel(c))
+CfgNext == \/ (\E c \in WeighCmds : DoWeigh(c)) \/ (\E t \in Targets : DoAdd(t)) \/ (\E c \in DelCmds : DoDel(c))
+           \/ (\E i \in 1..MaxTargets, w \in WU : DoReAdd(i, w))
 CfgSpec == Init /\ [][CfgNext]_vars
 
 -----------------------------------------------------------------------------
@@ -227,7 +253,16 @@ CfgSpec == Init /\ [][CfgNext]_vars
 CountIn(q, x) == Cardinality({i \in 1..Len(q) : q[i] = x})
 
 \* every weight vector reachable through add / weight commands has non-negative weights that sum to one
-WeightInv == tg # <<>> => LET v == Vec(tg) IN WeightsOK(v) /\ HonouredAsGiven(v) /\ Proportional(v) /\ DynamicEqual(v)
+VecOK(v) == WeightsOK(v) /\ HonouredAsGiven(v) /\ Proportional(v) /\ DynamicEqual(v)
+WeightInv == (tg # <<>> => VecOK(Vec(tg))) /\ (tgL # <<>> => VecOK(Vec(tgL)))
+\* the two readings of a re-announcement: every instance has exactly one entry under "last wins"
+\* and at least one under "further entry"; they have the same instances in the same order of
+\* first appearance, and coincide as long as nothing was re-announced with another weight
+ReAddInv == /\ \A i, j \in 1..Len(tgL) : SameInstance(tgL[i], tgL[j]) => i = j
+            /\ \A i \in 1..Len(tg) : \E j \in 1..Len(tgL) : SameInstance(tg[i], tgL[j])
+            /\ \A j \in 1..Len(tgL) : \E i \in 1..Len(tg) : SameInstance(tg[i], tgL[j])
+            /\ Len(tgL) <= Len(tg)
+            /\ (\A j \in 1..Len(cmds) : cmds[j].op # "readd") => tgL = tg
 \* `route del` removes exactly the selected targets and keeps the order of the others
 DelInv == \A c \in DelCmds :
             LET t2 == Del(tg, c.svc, c.sel)  m == Selected(tg, c.svc, c.sel) IN
